@@ -167,7 +167,7 @@ WalkElems(T, lim, o, n, acc) ==
        ELSE Append(acc, <<r.kind, r.off, 0>>)
 
 \* at every container start that AdvanceInto reaches (any depth): the Object / Array view and what it lists, flattened into
-\* triples  <<"{" or "[", offset, 1 if the view was granted else 0>>, the members, <<"end", 0, 0>>
+\* triples  <<"{+" / "[+" (view granted) or "{-" / "[-" (refused), offset, 0>>, the members, <<"end", 0, 0>>
 Pad3(sq) == [i \in 1..Len(sq) |-> <<sq[i][1], sq[i][2], 0>>]
 RECURSIVE WalkDeep(_, _, _, _)
 WalkDeep(T, it, n, acc) ==
@@ -177,12 +177,12 @@ WalkDeep(T, it, n, acc) ==
        ELSE IF r.ret = "{"
             THEN LET ob == Object(T, r.it) IN
                  WalkDeep(T, r.it, n - 1,
-                          acc \o << <<"{", r.it.off, IF ob.ok THEN 1 ELSE 0>> >>
+                          acc \o << <<IF ob.ok THEN "{+" ELSE "{-", r.it.off, 0>> >>
                               \o (IF ob.ok THEN WalkElems(T, ob.lim, ob.off, Len(T) + 2, <<>>) ELSE <<>>) \o << <<"end", 0, 0>> >>)
        ELSE IF r.ret = "["
             THEN LET ar == Array(T, r.it) IN
                  WalkDeep(T, r.it, n - 1,
-                          acc \o << <<"[", r.it.off, IF ar.ok THEN 1 ELSE 0>> >>
+                          acc \o << <<IF ar.ok THEN "[+" ELSE "[-", r.it.off, 0>> >>
                               \o (IF ar.ok THEN Pad3(WalkAdvance(T, ar.it, Len(T) + 2, <<>>)) ELSE <<>>) \o << <<"end", 0, 0>> >>)
        ELSE WalkDeep(T, r.it, n - 1, acc)
 
